@@ -103,7 +103,7 @@ theorem optPic_renders_same (norm : Bool) (p p' : Pic) (hopt : optPic norm p = s
     rw [e1, h, e2]
 
 /-- **Default saving in the five binary formats.**  `hrt` is the conclusion of the C05 round-trip theorem of the format for
-    the optimised picture (`xb_rt`, `bin_rt`, `adf_rt`, `idf_rt`, `tnd_rt_partial` — see the corollaries below). -/
+    the optimised picture (`xb_rt`, `bin_rt`, `adf_rt`, `idf_rt`, `tnd_rt` — see the corollaries below). -/
 theorem binary_default_save (f : Fmt) (o : Opts) (date : List Nat) (norm : Bool) (p p' : Pic)
     (hopt : optPic norm p = some p') (hfonts : FontsOk (fontsOf p))
     (hrt : ∃ bytes g, save f o date p' = .ok bytes ∧ fromBytes f bytes = .ok g ∧ SamePicture f p' g) :
@@ -127,9 +127,11 @@ theorem xb_default_save (o : Opts) (date : List Nat) (norm : Bool) (p p' : Pic) 
           p.rows.map (·.map (fun c => renderCell (fontsOf p) pal w0 h0 (toC c))) :=
   binary_default_save .xb o date norm p p' hopt hfonts (IcyVerif.C05.xb_rt o date p' hs hrep hdate)
 
+/-- (merge note: the hypothesis `f = .tnd → p'.w ≤ 1000` is gone — C05's Tundra theorem is `tnd_rt` for every width since the
+    Tundra loader repair) -/
 theorem bin_adf_idf_tnd_default_save (f : Fmt) (hf : f ≠ .xb) (o : Opts) (date : List Nat) (norm : Bool) (p p' : Pic)
     (hs : o.sauce = true) (hopt : optPic norm p = some p') (hfonts : FontsOk (fontsOf p))
-    (hrep : Representable f o p' = true) (hdate : dateOk date = true) (hw : f = .tnd → p'.w ≤ 1000) :
+    (hrep : Representable f o p' = true) (hdate : dateOk date = true) :
     ∃ bytes g, toBytes (save f o date) (fun q => (optPic norm q).getD q) false p = .ok bytes ∧
       fromBytes f bytes = .ok g ∧ SamePicture f p' g ∧
       ∀ (pal : Nat → ColorOpt.Rgb) (w0 h0 : Nat),
@@ -141,7 +143,7 @@ theorem bin_adf_idf_tnd_default_save (f : Fmt) (hf : f ≠ .xb) (o : Opts) (date
   | bin => exact IcyVerif.C05.bin_rt o date p' hrep hdate
   | adf => exact IcyVerif.C05.adf_rt o date p' hs hrep hdate
   | idf => exact IcyVerif.C05.idf_rt o date p' hs hrep hdate
-  | tnd => exact IcyVerif.C05.tnd_rt_partial o date p' hs hrep hdate (hw rfl)
+  | tnd => exact IcyVerif.C05.tnd_rt o date p' hs hrep hdate
 
 /-! ### C05's domain is closed under the optimiser -/
 
@@ -228,15 +230,15 @@ theorem attrCell_step (ice : Bool) (c c' : XbCompress.Cell)
   have hfl' : c'.attr.flags = c.attr.flags := hfl
   unfold attrCell at hc ⊢
   simp only [Bool.and_eq_true, decide_eq_true_eq] at hc ⊢
-  obtain ⟨⟨⟨hch0, hvis⟩, _⟩, hrest⟩ := hc
-  have hvis' : isVisible c' = true := by unfold isVisible at hvis ⊢; rw [hfl']; exact hvis
+  -- (merge note: `attrCell` has no visibility conjunct any more)
+  obtain ⟨⟨hch0, _⟩, hrest⟩ := hc
   have hch' : c'.ch ≤ 255 := by
     rcases hch with h1 | h1
     · have : c'.ch = c.ch := h1
       omega
     · have : c'.ch = 32 := h1
       omega
-  refine ⟨⟨⟨hch', hvis'⟩, hfg⟩, ?_⟩
+  refine ⟨⟨hch', hfg⟩, ?_⟩
   cases ice with
   | true =>
     simp only [if_true, Bool.and_eq_true, decide_eq_true_eq, Bool.not_eq_true'] at hrest hbg ⊢
@@ -324,8 +326,10 @@ theorem representable_optPic (f : Fmt) (o : Opts) (norm : Bool) (p p' : Pic) (ho
   have hsh := optPic_shape norm p p' hopt
   have hpages := optPic_pages norm p p' hopt
   unfold Representable at h ⊢
-  rw [Bool.and_eq_true] at h ⊢
-  refine ⟨optPic_wellFormed norm p p' hopt h.1, ?_⟩
+  rw [Bool.and_eq_true, Bool.and_eq_true] at h ⊢
+  -- (merge note: `Representable` starts with `metaOk p.sauce`; the optimiser does not touch the buffer's SAUCE data)
+  have hsa : p'.sauce = p.sauce := by rw [hsh]
+  refine ⟨⟨by rw [hsa]; exact h.1.1, optPic_wellFormed norm p p' hopt h.1.2⟩, ?_⟩
   have hw : p'.w = p.w := by rw [hsh]
   have hh : p'.h = p.h := by rw [hsh]
   have hi : p'.ice = p.ice := by rw [hsh]
@@ -377,26 +381,23 @@ theorem representable_optPic (f : Fmt) (o : Opts) (norm : Bool) (p p' : Pic) (ho
 /-- **Default saving in the five binary formats, unconditional on the optimised picture**: for every picture `p`
     representable in the format (the hypothesis of the C05 round-trip theorem for `p` itself) whose fonts are `FontsOk`, the
     DEFAULT save writes a file that loads back to a buffer showing the optimised picture `p'`, and `p'` renders like `p`.
-    (`hopt`: the optimiser returns — every cell's code point has a glyph, `optimize_defined_iff`.) -/
+    (`hopt`: the optimiser returns — every cell's code point has a glyph, `optimize_defined_iff`.)
+    (Merge note: Tundra no longer needs `p.w ≤ 1000`, see `bin_adf_idf_tnd_default_save`.) -/
 theorem binary_default_save_of_representable (f : Fmt) (o : Opts) (date : List Nat) (norm : Bool) (p p' : Pic)
     (hs : o.sauce = true) (hopt : optPic norm p = some p') (hfonts : FontsOk (fontsOf p))
-    (hrep : Representable f o p = true) (hdate : dateOk date = true) (hw : f = .tnd → p.w ≤ 1000) :
+    (hrep : Representable f o p = true) (hdate : dateOk date = true) :
     ∃ bytes g, toBytes (save f o date) (fun q => (optPic norm q).getD q) false p = .ok bytes ∧
       fromBytes f bytes = .ok g ∧ SamePicture f p' g ∧
       ∀ (pal : Nat → ColorOpt.Rgb) (w0 h0 : Nat),
         p'.rows.map (·.map (fun c => renderCell (fontsOf p) pal w0 h0 (toC c))) =
           p.rows.map (·.map (fun c => renderCell (fontsOf p) pal w0 h0 (toC c))) := by
   have hrep' := representable_optPic f o norm p p' hopt hrep
-  have hw' : f = .tnd → p'.w ≤ 1000 := by
-    intro hf
-    have : p'.w = p.w := by rw [optPic_shape norm p p' hopt]
-    rw [this]; exact hw hf
   cases f with
   | xb => exact xb_default_save o date norm p p' hs hopt hfonts hrep' hdate
-  | bin => exact bin_adf_idf_tnd_default_save .bin (by decide) o date norm p p' hs hopt hfonts hrep' hdate hw'
-  | adf => exact bin_adf_idf_tnd_default_save .adf (by decide) o date norm p p' hs hopt hfonts hrep' hdate hw'
-  | idf => exact bin_adf_idf_tnd_default_save .idf (by decide) o date norm p p' hs hopt hfonts hrep' hdate hw'
-  | tnd => exact bin_adf_idf_tnd_default_save .tnd (by decide) o date norm p p' hs hopt hfonts hrep' hdate hw'
+  | bin => exact bin_adf_idf_tnd_default_save .bin (by decide) o date norm p p' hs hopt hfonts hrep' hdate
+  | adf => exact bin_adf_idf_tnd_default_save .adf (by decide) o date norm p p' hs hopt hfonts hrep' hdate
+  | idf => exact bin_adf_idf_tnd_default_save .idf (by decide) o date norm p p' hs hopt hfonts hrep' hdate
+  | tnd => exact bin_adf_idf_tnd_default_save .tnd (by decide) o date norm p p' hs hopt hfonts hrep' hdate
 
 /-! ### non-vacuity -/
 
@@ -407,7 +408,7 @@ def fntW : BinFormats.Font :=
 
 /-- 'A' (12 on 1), a NUL (3 on 1) and a block (5 on 2): the NUL inherits foreground 12 and becomes `' '`, the block
     inherits background 1 -/
-def picW : Pic := ⟨3, 1, [[⟨0x41, ⟨12, 1, 0, 0⟩⟩, ⟨0, ⟨3, 1, 0, 0⟩⟩, ⟨219, ⟨5, 2, 0, 0⟩⟩]], .ice, dosPalette, [(0, fntW)]⟩
+def picW : Pic := ⟨3, 1, [[⟨0x41, ⟨12, 1, 0, 0⟩⟩, ⟨0, ⟨3, 1, 0, 0⟩⟩, ⟨219, ⟨5, 2, 0, 0⟩⟩]], .ice, dosPalette, [(0, fntW)], none⟩
 def picW' : Pic := { picW with rows := [[⟨0x41, ⟨12, 1, 0, 0⟩⟩, ⟨32, ⟨12, 1, 0, 0⟩⟩, ⟨219, ⟨5, 1, 0, 0⟩⟩]] }
 
 example : (optPic true picW).map (·.rows) = some picW'.rows := by decide +kernel
